@@ -104,7 +104,7 @@ def gen_vals(rng, n):
 
 
 def helper_case(name, ps, ins):
-    return 'HELPER %s %s %s' % (name, il(ps), (';'.join(il(s) for s in ins) if ins else '-'))
+    return 'HELPER %s %s %s' % (name, il(ps), (';'.join(il(s) for s in ins) if ins else '_'))
 
 
 def gen_c16(rng, tier):
@@ -114,6 +114,8 @@ def gen_c16(rng, tier):
     for name in ONE_IN:
         for n in range(L + 1):
             ps = [rng.randrange(-3, 4), rng.randrange(-3, 4)]
+            if name == 'MapWithPrevious':
+                ps[1] = rng.randrange(-1, 2)     # prev*k + x: |k| <= 1 keeps the fold inside int64
             cases.append((name, ps, [gen_vals(rng, n)]))
     for name in PARAM_IN:
         for n in range(L + 1):
@@ -157,6 +159,8 @@ def gen_c16(rng, tier):
         if name == 'Duplicate':
             k = rng.randrange(1, 6)
         ps = [k, rng.randrange(0, 4)] if name not in ONE_IN else [rng.randrange(-3, 4), rng.randrange(-3, 4)]
+        if name == 'MapWithPrevious':
+            ps[1] = rng.randrange(-1, 2)
         cases.append((name, ps, ins))
     return cases
 
@@ -257,7 +261,7 @@ def check_c16(res, tier, replay):
             cells.add((name, min(len(ins[0]), 9), ps[0] if ps else 0))
             continue
         exp_outs, exp_cons = py_helper(name, ps, ins)
-        exp_line = 'ok ' + (';'.join(il(o) for o in exp_outs) if exp_outs else '-') + ' | consumed=' + il(exp_cons)
+        exp_line = 'ok ' + (';'.join(il(o) for o in exp_outs) if exp_outs else '_') + ' | consumed=' + il(exp_cons)
         lens = tuple(min(len(s), 13) for s in ins)
         k = ps[0] if ps else 0
         regime = 'k>n' if ins and k > len(ins[0]) else ('k=0' if k == 0 else 'k<=n')
